@@ -12,7 +12,9 @@ RULE = ('histories: 4-9 write operations over a pool of 2-4 rich caption sets (s
         'objects (all eight writers with option combinations, write(lang=) / write(force=)), each operation on a '
         'shared or a fresh writer object; the input is dumped before and after every call (also when the call '
         'raises), and every output is compared with the bytes a fresh writer produces in pristine child '
-        'processes under PYTHONHASHSEED 1 and 12345. Fault cases: for one (writer, set) the distinct pycaption '
+        'processes under PYTHONHASHSEED 1 and 12345. Every second history is over variants of ONE document (same '
+        'absolute-unit layout at caption / span / language / set level, same class names defined differently) '
+        'written by writers of one class that differ only in the video size. Fault cases: for one (writer, set) the distinct pycaption '
         'source lines reached during write() are traced and an InjectedFault is raised at each (quick: a '
         'sample of 40; thorough: all), the input being compared after every fault. Non-trivial: a history with '
         '>= 2 writes on one writer object, or a fault case.')
@@ -26,7 +28,7 @@ REQUIRE = {'writes_in_histories': 300, 'writes_on_reused_writer': 100, 'writes_t
            'outputs_compared_with_pristine_child': 300, 'child_processes': 8, 'faults_injected': 100,
            'input_snapshots_compared': 400, 'sets_with_unclosed_span': 10,
            'reused_writer_after_set_with_language_layout': 5,
-           'suite_writes_observed': 50}
+           'suite_writes_observed': 50, 'histories_over_variants_of_one_document': 40}
 SHARDS = {'quick': 8, 'thorough': 16}
 TIME_LIMIT = {'quick': 1200, 'thorough': 5400}
 ALL_WRITERS = W.WRITERS + ['SCCWriter']
@@ -145,6 +147,65 @@ def gen_raise_probe(rng, tag, writer):
                     {'cfg': 0, 'set': 0, 'kw': {}, 'fresh': False}, {'cfg': 0, 'set': 1, 'kw': {}, 'fresh': False}]}
 
 
+FAMILY_STYLES = [{'italics': True}, {'bold': True}, {'underline': True}, {'italics': True, 'bold': True},
+                 {'color': 'red'}, {'font-family': 'Arial', 'italics': False}, {'text-align': 'right'}]
+VIDEO_SIZES = [(640, 360), (1280, 720), (1920, 1080), (854, 480)]
+
+
+def gen_family_history(rng, tag, writer):
+    """Variants of one document - the same absolute-unit layout and the same class names, but the layout
+    attached at different levels (caption, span, language, set only) and the classes defined differently -
+    written by writers of one class that differ only in the video size, on shared writer objects.  Anything
+    remembered per class name, per layout, per writer object or per process shows as a difference from the
+    bytes of the pristine child."""
+    unit = rng.choice(['px', 'px', 'c', 'em', 'pt'])
+    scale = {'px': 1.0, 'c': 0.05, 'em': 0.06, 'pt': 0.7}[unit]
+    sz = lambda v: [round(v * scale, 2), unit]
+    L = {'origin': [sz(rng.choice([32, 64, 100])), sz(rng.choice([18, 36, 50]))],
+         'extent': rng.choice([None, [sz(320), sz(90)]]),
+         'padding': rng.choice([None, [sz(4), sz(8), sz(12), sz(16)]]),
+         'alignment': rng.choice([None, ['left', 'top'], ['center', 'bottom']])}
+    L2 = copy.deepcopy(L)
+    L2['origin'] = [sz(200), sz(120)]
+    names = rng.sample(['k1', 'k2', 'speaker', 'hl'], 2)
+    langs = rng.sample(['en', 'fr', 'de'], rng.choice([1, 2]))
+    sets = []
+    for v in range(rng.randrange(2, 5)):
+        level = rng.choice(['caption', 'span', 'lang', 'set', 'none', 'caption'])
+        styles = {names[0]: dict(rng.choice(FAMILY_STYLES)), names[1]: dict(rng.choice(FAMILY_STYLES))}
+        if rng.random() < 0.3:
+            styles[names[1]].update({'classes': [names[0]], 'class': names[0]})
+        spec = {'langs': [], 'styles': styles, 'layout': copy.deepcopy(L) if level == 'set' else None}
+        for li, lang in enumerate(langs):
+            caps = []
+            for ci in range(2):
+                lay = copy.deepcopy(L if ci == 0 else rng.choice([L, L2])) if level == 'caption' else None
+                slay = copy.deepcopy(L) if level == 'span' else None
+                content = {'class': names[ci % 2]} if rng.random() < 0.7 else {'classes': list(names), 'class': names[0]}
+                nodes = [['t', f'{tag}.{li}.{ci} plain '] + ([slay] if slay else []),
+                         ['s', True, content] + ([slay] if slay else []),
+                         ['t', 'styled words'] + ([slay] if slay else []),
+                         ['s', False, content] + ([slay] if slay else [])]
+                caps.append({'start': (ci + 1) * 2000000, 'end': (ci + 1) * 2000000 + 1500000, 'nodes': nodes,
+                             'style': rng.choice([None, {'class': names[0]}]), 'layout': lay})
+            spec['langs'].append({'lang': lang, 'layout': copy.deepcopy(L) if level == 'lang' else None,
+                                  'captions': caps})
+        sets.append(spec)
+    cfgs = []
+    for vw, vh in rng.sample(VIDEO_SIZES, 2):
+        opts = {}
+        if writer != 'LegacyDFXPWriter':
+            opts = {'relativize': True, 'fit_to_screen': rng.random() < 0.5, 'video_width': vw, 'video_height': vh}
+        if writer in ('DFXPWriter', 'SinglePositioningDFXPWriter') and rng.random() < 0.3:
+            opts['write_inline_positioning'] = True
+        cfgs.append({'writer': writer, 'opts': opts})
+    ops = []
+    for _ in range(rng.randrange(5, 10)):
+        ops.append({'cfg': rng.randrange(len(cfgs)), 'set': rng.randrange(len(sets)), 'kw': {},
+                    'fresh': rng.random() < 0.25})
+    return {'kind': 'history', 'family': True, 'sets': sets, 'cfgs': cfgs, 'ops': ops}
+
+
 def cases(ctx):
     rng = ctx.rng('c09')
     if ctx.shard == 0:
@@ -158,6 +219,8 @@ def cases(ctx):
                 yield gen_probe(rng, f'P{ctx.shard}.{k}.{rep}', writer)
     for i in range(ctx.budget(160, 6000)):
         yield gen_history(rng, f'H{ctx.shard}.{i}')
+        if i % 2 == 0:
+            yield gen_family_history(rng, f'V{ctx.shard}.{i}', ALL_WRITERS[(i // 2 + ctx.shard) % len(ALL_WRITERS)])
         if i % 4 == 0:
             while True:
                 cfg = gen_writer_cfg(rng)
@@ -198,6 +261,8 @@ def check(case, ctx):
         return [{'what': v['violation'], 'test': v.get('test')} for v in data['violations']
                 if v.get('property') == 'C09'][:3]
     sets = [dump.mk_caption_set(s) for s in case['sets']]
+    if case.get('family'):
+        ctx.count('histories_over_variants_of_one_document')
     for s in case['sets']:
         if s.get('unclosed'):
             ctx.count('sets_with_unclosed_span')
